@@ -779,7 +779,7 @@ template<class T> static void build_td_t(const char* tname, bool thorough) {
 template<class S> static void exercise_density(const S& s) {
   typedef typename item_of<S>::type T;
   S c(s);
-  if (s.get_dim() <= 64) {
+  if (s.get_dim() >= 1 && s.get_dim() <= 64) {
     std::vector<T> pt(s.get_dim(), (T)1);
     for (int i = 0; i < 12; i++) { pt[0] = (T)i; c.update(pt); }
     if (!c.is_empty()) (void)c.get_estimate(pt);
